@@ -21,13 +21,13 @@
    Recorded finding, not proved away: an unknown message type never completes,
    the receive stream stalls (C17_unknown_type_stalls, C17_unknown_type_stalls_rx).
 
-   (17d) "never delivers data assembled from mismatched transfers" belongs to
-   the transfer-structure package (no_mixed_delivery); Proofs/TcpclXferProofs.v
-   did not exist when this file was written, so it is not re-exported here. *)
+   (17d) "never delivers data assembled from mismatched transfers" is proved by
+   the transfer-structure package (Proofs/TcpclXferRecv.v: no_mixed_delivery,
+   pop_delivered; also stated in Props/C01.v) and re-exported at the end. *)
 From Coq Require Import List NArith Bool.
 Import ListNotations.
-From DTN Require Import Lib.Bytes Model.TcpclMsg Model.TcpclSess
-  Proofs.TcpclRobustLib Proofs.TcpclRobustProofs.
+From DTN Require Import Lib.Bytes Model.TcpclMsg Model.TcpclSess Model.TcpclXferSpec
+  Proofs.TcpclRobustLib Proofs.TcpclRobustProofs Proofs.TcpclXferRecv.
 Local Open Scope N_scope.
 
 (* ---- (17a) no exception escapes an event-loop callback, and the receive
@@ -184,3 +184,28 @@ Theorem C17_own_transfers_unaffected : forall m s s' r,
   /\ rx_map s' = rx_map s /\ rx_tmp s' = rx_tmp s /\ next_id s' = next_id s.
 Proof. exact own_transfers_unaffected. Qed.
 Print Assumptions C17_own_transfers_unaffected.
+
+(* ---- (17d) re-exported from the transfer-structure package: every bundle
+        handed to the application (popped) is a specified delivery, and each
+        specified delivery (xid, d) is the concatenation of the data of the
+        segments of ONE transfer id -- a START segment of xid, then (among frames
+        none of which is a START) the segments of xid up to its first END *)
+Theorem C17_pop_delivered : forall c ops id d,
+  In (EPop id d) (trace (run c ops)) -> In (id, d) (deliver_spec (handled (run c ops))).
+Proof. exact pop_delivered. Qed.
+Print Assumptions C17_pop_delivered.
+
+Theorem C17_no_mixed_delivery :
+  forall (h : list frame) (xid : N) (d : bytes),
+    In (xid, d) (deliver_spec h) ->
+    exists pre fl0 e0 d0 mid post,
+      h = pre ++ FMsg (MXferSeg fl0 xid e0 d0) :: mid ++ post /\
+      has_start fl0 = true /\
+      Forall (fun f => is_start f = false) mid /\
+      d = d0 ++ concat (map (contrib xid) mid) /\
+      ((has_end fl0 = true /\ mid = []) \/
+       (has_end fl0 = false /\
+        exists mid' fle ee de, mid = mid' ++ [FMsg (MXferSeg fle xid ee de)] /\ has_end fle = true /\
+                               Forall (fun f => is_end_of xid f = false) mid')).
+Proof. exact no_mixed_delivery. Qed.
+Print Assumptions C17_no_mixed_delivery.
